@@ -1,7 +1,7 @@
 //@ assume: BlockHeader / ShortId / Hash are abstract; BlockHeader::hash, TxKernel::short_id are uninterpreted functions (sp_hhash, sp_short_id); Output / TxKernel carry an abstract feature tag (OutKind: Plain|Coinbase; KernKind: Plain|Coinbase|HeightLocked|NoRecentDuplicate) read by is_coinbase / is_plain; `sort_unstable()` is abstract: the result is a permutation (sort_perm) -- that it is the canonical order, and that two canonical lists with equal multisets are the same list, is not decided; TransactionBody::init(.., verify_sorted=false) is abstract like Transaction::new in C12/aggregate (sorted permutations of its arguments)
 //@ assume: T5: `block.outputs().iter().filter(f).cloned().collect::<Vec<_>>()` => abstract OutSlice / OutIter stand-ins whose contracts say exactly: the collected vector is, in order, the elements for which f holds; the closure f is the REAL closure text, verified as a lifted function (T7). T6: `thread_rng().gen()` => rand_nonce() (any u64); `for k in block.kernels()` / `for tx in txs` => the verifier's `for x in it: slice.iter()` form; `.clone()` on kernels => clone_kern (equal copy); `inputs.into()` => inputs_from; `transaction::cut_through` => cut_through; `.sort_unstable()` => sort_perm; `let tx_inputs: Vec<_> = tx.inputs().into()` => inputs_of. T3: the trace! line is removed
 //@ assume: decided here (C12, third clause), for ANY block / any list of transactions: (a) CompactBlock::from(block) keeps the header, carries in full EXACTLY the coinbase outputs and the coinbase kernels of the block, and for every other kernel exactly its short id under (header hash, the block's nonce) -- none dropped, none doubled; (b) Block::hydrate_from(cb, txs) keeps cb's header and its body is, as multisets, inputs/outputs = the cut-through remainder of all the transactions' inputs/outputs (C12/cut_through contract) plus cb's full outputs, kernels = all the transactions' kernels plus cb's full kernels; it fails only if cut-through or body initialisation fails. Hence (lemma_roundtrip, proved) hydrating the compact form of a block from transactions that account for exactly its non-coinbase part gives back a block with the same header and the same multisets of inputs, outputs and kernels. NOT decided: that the short ids in cb select those transactions (that is the caller, in the pool/p2p adapter), the canonical ordering, Block::from_reward.
-//@ assumed_items: 18
+//@ assumed_items: 19
 //@ fns: CompactBlock::from, closure in CompactBlock::from, CompactBlockBody::init, CompactBlockBody::sort, Block::hydrate_from
 //@ include: ../C12/aggregate.verus.rs
 
@@ -77,8 +77,15 @@ impl OutIter {
 /// what the property asks of the filter closure: keep exactly the coinbase outputs
 pub open spec fn out_full_pred_spec(o: Output) -> bool { out_cb(o) }
 
+/// offered (not used by the pinned text of hydrate_from): the weighting contexts and the lightweight read validation. ASSUMED of it: a body that is
+/// valid when read AS A BLOCK passes validate_read(AsBlock); nothing is assumed for the other contexts (they reserve room for a coinbase)
+#[derive(Clone, Copy)]
+pub enum Weighting { AsTransaction, AsLimitedTransaction(u64), AsBlock, NoLimit }
+pub uninterp spec fn sp_valid_as_block(b: TransactionBody) -> bool;
 pub struct TransactionBody { pub ins: Ghost<Seq<CommitWrapper>>, pub outs: Vec<Output>, pub kerns: Vec<TxKernel> }
 impl TransactionBody {
+    #[verifier::external_body]
+    pub fn validate_read(&self, weighting: Weighting) -> (r: Result<(), Error>) ensures (weighting is AsBlock && sp_valid_as_block(*self)) ==> r is Ok { unimplemented!() }
     /// TransactionBody::init(.., verify_sorted = false): sorts and always succeeds (transaction.rs: `body.sort(); Ok(body)`); the result holds permutations of the arguments
     #[verifier::external_body]
     pub fn init(inputs: Inputs, outputs: &Vec<Output>, kernels: &Vec<TxKernel>, verify_sorted: bool) -> (r: Result<TransactionBody, Error>)
@@ -175,6 +182,8 @@ impl Block {
 //@   rewrite `let tx_inputs: Vec<_> = tx.inputs().into();` => `let tx_inputs: Vec<CommitWrapper> = inputs_of(tx);`
 //@   rewrite `transaction::cut_through(&mut inputs, &mut outputs)?` => `cut_through(&mut inputs, &mut outputs)?`
 //@   rewrite `TransactionBody::init(inputs.into(), &outputs, &kernels, false)?` => `TransactionBody::init(inputs_from(inputs), &outputs, &kernels, false)?`
+//@   requires:
+//@+    forall|b: TransactionBody| #[trigger] sp_valid_as_block(b),
 //@   ensures:
 //@+    r matches Ok(b) ==> b.header == cb.header
 //@+        && b.body.kerns@.to_multiset() == cat_kerns(txs@, txs@.len() as int).to_multiset().add(cb.body.kern_full@.to_multiset())
